@@ -77,6 +77,28 @@ fn par_map(records: Vec<Value>, f: impl Fn(&Value) -> Value + Sync) -> Vec<Value
     records.par_iter().map(|r| f(r)).collect()
 }
 
+/// `vh ast-kinds`: which variants of the parser's Node occur in the AST of the source (coverage of the input families).
+fn astkinds_record(rec: &Value) -> Value {
+    use mamba::parse::ast::AST;
+    let src = util::source_of(rec);
+    let id = rec.get("id").cloned().unwrap_or(Value::Null);
+    match guarded(move || src.parse::<AST>().map(|ast| format!("{ast:?}")).map_err(|e| e.msg.clone())) {
+        Ok(Ok(dbg)) => {
+            let mut kinds: Vec<String> = Vec::new();
+            for part in dbg.split("node: ").skip(1) {
+                let name: String = part.chars().take_while(|c| c.is_ascii_alphanumeric()).collect();
+                if !name.is_empty() && !kinds.contains(&name) {
+                    kinds.push(name);
+                }
+            }
+            kinds.sort();
+            serde_json::json!({"id": id, "ok": true, "kinds": kinds})
+        }
+        Ok(Err(e)) => serde_json::json!({"id": id, "ok": false, "err": e}),
+        Err(p) => serde_json::json!({"id": id, "ok": false, "panic": p}),
+    }
+}
+
 fn main() {
     install_panic_hook();
     let args: Vec<String> = std::env::args().collect();
@@ -89,6 +111,7 @@ fn main() {
     match cmd {
         "lex" => write_records(&par_map(read_records(), lexcmd::lex_record)),
         "core-print" => write_records(&par_map(read_records(), corecmd::print_record)),
+        "ast-kinds" => write_records(&par_map(read_records(), astkinds_record)),
         "types-ctx" => write_records(&par_map(read_records(), typescmd::ctx_record)),
         "types-table" => write_records(&par_map(read_records(), typescmd::table_record)),
         "transpile" => write_records(&par_map(read_records(), transpile::transpile_record)),
